@@ -181,7 +181,10 @@ def run_check(spec, tier, seed):
     bres = BoundedResult()
     if hasattr(spec, 'bounded'):
         try:
-            spec.bounded(tier, seed, bres)
+            # thorough tier: the bounded driver is run with several seeds (random parts differ, exhaustive parts repeat)
+            n_seeds = getattr(spec, 'THOROUGH_SEEDS', 3) if tier == 'thorough' else 1
+            for k in range(n_seeds):
+                spec.bounded(tier, seed + 1000 * k, bres)
         except Exception as e:
             tb = traceback.extract_tb(sys.exc_info()[2])
             inner = tb[-1] if tb else None
